@@ -193,7 +193,7 @@ template <class T> inline FactorProblem<T> gen_factor_problem(Choice &c, Ctx &cx
     auto pat = gen_pattern(c, m, n, PAT_NONSING, family);
     GMat G = gen_values(c, m, n, pat, cplx, single, family);
     P.o = gen_opts(c, n, single, m == n, false); P.o.nr = false;
-    if (P.ilu) P.io = gen_ilu_opts(c);
+    if (P.ilu) { P.io = gen_ilu_opts(c); route_ilu(P.io, cx); }
     P.m = m; P.n = n;
     P.S = to_comp<T>(G, false, P.o.shuffle_rows ? &c : nullptr);
     if (Gout) *Gout = G;
